@@ -292,6 +292,7 @@ class WLSim(object):
     def __init__(self, plan, ctx, fs, wl, seqmod, Sequence, run_no):
         self.plan, self.ctx, self.fs, self.wl, self.seqmod, self.Sequence = plan, ctx, fs, wl, seqmod, Sequence
         self.cfg = plan["cfg"]
+        self.outdir = fs.root + "/wl"
         self.model = Model(self.cfg)
         self.run_no = run_no
         self.rnd = ctx.streams.stream("wl_tape_%d" % run_no)
@@ -538,7 +539,7 @@ class WLSim(object):
 
     # --- disk vs model
     def read_new_rows(self, name, peek=False):
-        path = OUTDIR + "/" + name
+        path = self.outdir + "/" + name
         data = bytes(self.fs.files.get(path, b""))
         off = self.file_off[name]
         if len(data) < off:
@@ -614,14 +615,14 @@ class WLSim(object):
         self.check_increments()
 
     def text(self, name):
-        return bytes(self.fs.files.get(OUTDIR + "/" + name, b"")).decode("utf-8", "replace")
+        return bytes(self.fs.files.get(self.outdir + "/" + name, b"")).decode("utf-8", "replace")
 
     def check_static_files(self, strict):
         m = self.model
         cen = m.centres()
         # DOS files
         for name, idxs in (("DOS.txt", range(m.M)), ("DOS_local.txt", range(m.a, m.b))):
-            present = (OUTDIR + "/" + name) in self.fs.files
+            present = (self.outdir + "/" + name) in self.fs.files
             if not present:
                 if strict:
                     self.viol("output_disagrees", name + "_missing", "%s was not written" % name)
@@ -713,8 +714,23 @@ def execute(plan, ctx):
     wl.t = clock
     wl.time = clock
     seqmod.time = clock
+    import os
+    import shutil
+    import tempfile
     fs = SimFS(ctx)
     wl.open = fs.open
+    # the log directory exists for real (so that a maintainer's os.path.isdir / makedirs on it behaves as on a
+    # real disk); every byte still goes through the SimFS seam and the random directory name is never logged
+    fs.root = tempfile.mkdtemp(prefix="dst_c18_")
+    OUTDIR = fs.root + "/wl"
+    os.makedirs(OUTDIR)
+    try:
+        return _execute(plan, ctx, fs, wl, seqmod, permmod, Sequence, SequenceException, clock, OUTDIR)
+    finally:
+        shutil.rmtree(fs.root, ignore_errors=True)
+
+
+def _execute(plan, ctx, fs, wl, seqmod, permmod, Sequence, SequenceException, clock, OUTDIR):
     cur = {"sim": None}
     move_driver = UniformDriver(ctx.streams.stream("move_tape"), bias=0.3 if plan.get("move_rng") == "biased" else 0.0, ctx=ctx)
 
